@@ -252,7 +252,36 @@ def c08d(tree, ob):
                 if not delegates and not raises:
                     ob.violate(BLOCKS, cname + '.' + m.name, 'def {}(self, s): (ignores s)'.format(m.name), 'items left over after the declared fields are silently ignored: a block whose CRC-type '
                                'octet is corrupted to 0 keeps its CRC item as a surplus item and is accepted unchecked', m)
+    # ... and they do not rely on the inherited behaviour either: scapy hands leftover items to the payload class of the
+    # block type, which fails for most types by accident but not for the single-item ones (Bundle Age, Hop Count take the
+    # surplus as their own content).  Some class of the hierarchy must refuse a non-empty rest outright.
+    refusers = []
+    for cname in ('AbstractBlock', 'PrimaryBlock', 'CanonicalBlock'):
+        for m in tree.klass(BLOCKS, cname).body:
+            if isinstance(m, ast.FunctionDef) and m.name == 'do_dissect_payload' and len(m.args.args) >= 2:
+                fm = FuncView(tree, BLOCKS, cname + '.do_dissect_payload')
+                arg = m.args.args[1].arg
+                if any(isinstance(x, ast.Raise) and fm.has(x, arg, True) for x in walk_local(m)):
+                    refusers.append(cname)
+    if 'AbstractBlock' in refusers or {'PrimaryBlock', 'CanonicalBlock'} <= set(refusers):
+        ob.site(BLOCKS, tree.klass(BLOCKS, 'AbstractBlock'), 'items beyond the declared fields of a block are refused for every block type')
+    else:
+        ob.violate(BLOCKS, 'AbstractBlock', 'no do_dissect_payload that refuses leftover items', 'items left over after the declared fields are handed to the payload class of the block type: a Bundle Age or Hop '
+                   'Count block takes them as its own content, so a CRC type octet corrupted to 0 (CRC item becomes surplus, never checked) or an enlarged array head is accepted',
+                   tree.klass(BLOCKS, 'AbstractBlock'))
     ob.site(BLOCKS, tree.klass(BLOCKS, 'CanonicalBlock'), 'block classes do not swallow surplus array items')
+    # the same one level up: what follows the decoded item in the input must not vanish.  cbor2.loads() decodes one item and
+    # ignores the rest: an array head corrupted into a break (0xff) ends the bundle early, the remaining blocks are never
+    # seen by the CRC check, and the truncated bundle is accepted
+    fd = FuncView(tree, 'scapy_cbor/packets.py', 'AbstractCborStruct.dissect')
+    loose = [c for c in calls_in(fd.func) if (call_name(c) or '') in ('cbor2.loads', 'loads')]
+    strict = [c for c in calls_in(fd.func) if (call_name(c) or '') in ('cbor2.load', 'load') or (call_name(c) or '').endswith('.decode')]
+    tells = [r for r in walk_local(fd.func) if isinstance(r, ast.Raise) and any('.tell()' in t and 'len(' in t for (t, p) in (fd.facts(r) or ()))]
+    if loose or not (strict and tells):
+        ob.violate('scapy_cbor/packets.py', fd.qual, src((loose or strict or [fd.func])[0])[:60], 'the input is decoded as one CBOR item and whatever follows it is silently dropped: a block whose array head is '
+                   'corrupted into a break truncates the bundle, which is then accepted without its remaining blocks', (loose or [fd.func])[0])
+    else:
+        ob.site('scapy_cbor/packets.py', tells[0], 'input not consumed completely by the item is an error')
     # type 0: no CRC value on output, none accepted on input
     fu = FuncView(tree, BLOCKS, 'AbstractBlock.update_crc')
     nones = [n for n in walk_local(fu.func) if isinstance(n, ast.Assign) and src(n.targets[0]) == 'crc_value' and isinstance(n.value, ast.Constant) and n.value.value is None]
